@@ -1,6 +1,7 @@
 package c11
 
 import (
+	"strings"
 	"math/big"
 
 	"github.com/youchainhq/go-youchain/common"
@@ -135,6 +136,11 @@ func buildUniverse(f Factory, genesis *types.Block, c Case) *universe {
 						h := u.valid[ci].Header()
 						h.ParentHash = inv.Hash()
 						ch := types.NewBlockWithHeader(h).WithBody(u.valid[ci].Body())
+						if rd, ok := u.f.(interface {
+							Redress(parent, blk *types.Block) *types.Block
+						}); ok && strings.HasPrefix(is.Kind, "ucon-voted-") {
+							ch = rd.Redress(inv, ch) // the child is voted and sealed over its new hash
+						}
 						u.invalid[ch.Hash()] = "child-of-" + is.Kind
 						u.offer = append(u.offer, ch)
 						break
